@@ -65,6 +65,10 @@ Fixes == <<"infixl", "infixr", "infixn">>
 \* table i: `+` gets (bp1, fix1), `*` gets (bp2, fix2), `~` is prefix with bp3, `!` postfix with bp3
 PrecTables == Prod2(Prod2(BPs, Fixes, LAMBDA b, f : <<b, f>>), Prod2(BPs, Fixes, LAMBDA b, f : <<b, f>>),
                     LAMBDA o1, o2 : <<Op(N_plus, o1[1], o1[2]), Op(N_star, o2[1], o2[2])>>)
+\* binding powers far above the built-in levels (33, 100.5, 1000): nothing in the rules depends on their magnitude
+HiBPs == <<66, 201, 2000>>
+PrecTablesHi == Prod2(Prod2(HiBPs, Fixes, LAMBDA b, f : <<b, f>>), Prod2(<<6, 66, 202>>, Fixes, LAMBDA b, f : <<b, f>>),
+                      LAMBDA o1, o2 : <<Op(N_plus, o1[1], o1[2]), Op(N_star, o2[1], o2[2])>>)
 UnTables == Prod2(BPs, Prod2(BPs, Fixes, LAMBDA b, f : <<b, f>>),
                   LAMBDA pb, o : <<Op(N_tilde, pb, "prefix"), Op(N_bang, pb, "postfix"), Op(N_plus, o[1], o[2])>>)
 SP == <<32>>
@@ -122,7 +126,19 @@ SugarShapes ==
        <<40, 40, 120, 41, 41, 46, 102, 40, 40, 121, 41, 41>>,                              \* ((x)).f((y))
        <<45, 120, 46, 102, 40, 41, 32, 43, 32, 33, 121, 91, 48, 93>>,                      \* -x.f() + !y[0]
        <<120, 46, 102, 46, 103, 40, 49, 41, 46, 104>>,                                     \* x.f.g(1).h
-       <<34, 72, 34, 46, 108, 101, 110, 40, 41>>, <<97, 46, 98, 46, 99, 40, 49, 44, 32, 50, 41>>>>     \* "H".len()  a.b.c(1, 2)
+       <<34, 72, 34, 46, 108, 101, 110, 40, 41>>, <<97, 46, 98, 46, 99, 40, 49, 44, 32, 50, 41>>,      \* "H".len()  a.b.c(1, 2)
+       \* explicit calls without sugar beneath them, of names that have polymorphic AND monomorphic overloads (for the
+       \* "one parsed tree compiled for several environments" part of the harness)
+       <<108, 101, 110, 40, 120, 41>>,      \* len(x)
+       <<108, 101, 110, 40, 120, 41, 32, 43, 32, 48>>,      \* len(x) + 0
+       <<91, 108, 101, 110, 40, 120, 41, 93>>,      \* [len(x)]
+       <<120, 46, 108, 101, 110, 40, 41>>,      \* x.len()
+       <<120, 32, 61, 61, 32, 120>>,      \* x == x
+       <<91, 120, 32, 61, 61, 32, 120, 93>>,      \* [x == x]
+       <<120, 32, 33, 61, 32, 120, 32, 63, 32, 49, 32, 58, 32, 50>>,      \* x != x ? 1 : 2
+       <<108, 101, 110, 40, 120, 41, 32, 61, 61, 32, 108, 101, 110, 40, 120, 41>>,      \* len(x) == len(x)
+       <<115, 116, 114, 105, 110, 103, 40, 120, 41>>,      \* string(x)
+       <<120, 46, 108, 101, 110, 40, 41, 46, 115, 116, 114, 105, 110, 103, 40, 41>>>>      \* x.len().string()
 SugarUniverse == IF P_MODE = "sugar" THEN Concat([n \in 1..P_SIZE |-> SugarN(n)]) \o SugarShapes ELSE <<>>
 
 \* bracket nests (C12): nested map keys, groups, objects, lists; depth 1..P_SIZE
@@ -142,6 +158,7 @@ Universe ==
     [] P_MODE = "nests" -> Map1S(NestUniverse, LAMBDA s : [opsid |-> "builtin", ops |-> BuiltinOps, src |-> s])
     [] P_MODE = "sugar" -> Map1S(SugarUniverse, LAMBDA s : [opsid |-> "builtin", ops |-> BuiltinOps, src |-> s])
     [] P_MODE = "prec" -> Prod2(PrecTables, Shapes2, LAMBDA t, s : [opsid |-> "", ops |-> t, src |-> s])
+                            \o Prod2(PrecTablesHi, Shapes2, LAMBDA t, s : [opsid |-> "", ops |-> t, src |-> s])
                             \o Prod2(UnTables, ShapesU, LAMBDA t, s : [opsid |-> "", ops |-> t, src |-> s])
                             \o Prod2(<<"builtin", "overlap">>, NAShapes, LAMBDA id, s : [opsid |-> id, ops |-> OpSet(id), src |-> s])
     [] OTHER -> <<>>
